@@ -312,6 +312,25 @@ ROUND8 = {
  "C19": "Uris a real daemon hands out for object ids of every shape must parse back to that id at that daemon.",
  "C20": "The name's registration changes while the gateway runs (given to another object, removed).",
 }
+# ninth round (DESIGN.md section 11.4i)
+ROUND9 = {
+ "C01": "Half of the proxies used for calls are copies of the configured proxy; a type replacement registered with one serializer leaves the others as they were.",
+ "C02": "The application changes the member lists of a proxy it got from the daemon for its own object.",
+ "C03": "Two clients call at the same time and each reply is written while the other is half written.",
+ "C05": "Uri texts that are hard to refuse; a supervising parent process turns an interpreter that stops responding into the verdict Hang.",
+ "C06": "Messages are read both ways in turn (MSG_WAITALL and the plain loop); the payload handed over as bytes, bytearray, memoryview or memoryview of wide items.",
+ "C07": "Every fifth job goes through a daemon behind a Unix domain socket.",
+ "C08": "First message class stalled_partial against a daemon with a communication timeout.",
+ "C09": "Instances that track a resource whose close() fails.",
+ "C10": "Another method of the object that hands out the streams raises while streams are open, with detailed tracebacks.",
+ "C11": "An exception class of the application with converters registered both ways; a copy of a batch proxy collecting calls of its own.",
+ "C16": "Another daemon of the process with an object of the same class is closed half way.",
+ "C17": "A third of the reads go through the SocketConnection object; the buffer to send as bytes, bytearray, memoryview or memoryview of wide items.",
+ "C19": "Every uri also travels with a catch-all converter registered later on.",
+ "C20": "The requests whose answer depends on the name server's listing also run against a name server on sqlite.",
+}
+for _k, _v in ROUND9.items():
+    ROUND8[_k] = (ROUND8[_k] + " " + _v) if _k in ROUND8 else _v
 for _k, _v in ROUND8.items():
     ROUND7[_k] = (ROUND7[_k] + " " + _v) if _k in ROUND7 else _v
 for _k, _v in ROUND7.items():
